@@ -163,6 +163,10 @@ pub fn generate_long_run<M: Machine>(verif_seed: u64, run: u64, max_pow10: u32) 
     if M::FAMILY == Family::Sum && r.chance(0.5) {
         family = *r.pick(&[FAM_TINY, FAM_HUGE, FAM_VANISHING, FAM_VANISHING, FAM_NEAR_UNDERFLOW, FAM_NEAR_UNDERFLOW]);
     }
+    // every third long run is a head followed by increments below the resolution of the sum
+    if run % 3 == 0 {
+        family = FAM_VANISHING;
+    }
     let scale_exp = if family == FAM_TINY || family == FAM_HUGE || family == FAM_NEAR_UNDERFLOW { 0 } else { r.range(-10, 10) as i32 };
     let scale_exp = if M::FAMILY == Family::Mean && (family < FAM_TINY || family == FAM_ALTERNATING) && r.chance(0.1) {
         // squares underflow, records are normal numbers
